@@ -219,7 +219,7 @@ for _k in ("C03", "C04"):
     PROPS[_k]["consts"] = list(PROPS[_k]["consts"]) + [c for c in ("large_safe_prime_length", "n_be", "sha1_hash_length", "proof_length", "private_key_length", "salt_length", "s_length", "session_key_length", "reconnect_challenge_data_length", "public_key_length", "n_le") if c not in PROPS[_k]["consts"]]
 STEP_FILES = {"C07": ["Vanilla"], "C08": ["Tbc"], "C09": ["Rc4"], "C11": ["Vanilla", "Tbc", "Wrath"], "C10": ["Wrath"], "C18": ["Rc4", "Matrix"], "C16": ["Pin"], "C03": ["Key"], "C14": ["Key"]}
 for _k, _fs in {"C01": ["ApiIntoServer", "Formulas"], "C03": ["Formulas"], "C02": ["ApiIntoServer", "ApiClientProof"], "C05": ["ApiServerReconnect", "ApiClientReconnect"],
-                "C15": ["ApiServerReconnect", "ApiIntoServer", "ApiClientReconnect"], "C06": ["ApiWorld"], "C04": ["KeyCheck"], "C13": ["NormString"], "C19": ["Formulas"], "C11": ["HelpersVanilla", "HelpersTbc", "IoWrappers"], "C07": ["HelpersVanilla"], "C08": ["HelpersTbc"], "C14": ["HelpersVanilla", "HelpersTbc"]}.items():
+                "C15": ["ApiServerReconnect", "ApiIntoServer", "ApiClientReconnect"], "C06": ["ApiWorld"], "C04": ["KeyCheck"], "C13": ["NormString"], "C19": ["Formulas"], "C11": ["HelpersVanilla", "HelpersTbc", "IoWrappers", "IoWrath"], "C10": ["IoWrath"], "C07": ["HelpersVanilla"], "C08": ["HelpersTbc"], "C14": ["HelpersVanilla", "HelpersTbc", "IoWrath"]}.items():
     STEP_FILES[_k] = STEP_FILES.get(_k, []) + _fs
 for _k, _fs in STEP_FILES.items():
     PROPS[_k]["extra_files"] = PROPS[_k]["extra_files"] + ["proofs/steps/%s.v" % f for f in _fs]
